@@ -31,7 +31,9 @@ def digest(obj, _depth=0):
         if d > 8:
             h.update(b'<deep>')
             return
-        if isinstance(o, np.ndarray):
+        if isinstance(o, np.ndarray) and o.dtype == object:
+            h.update(b'ndo' + str(o.shape).encode() + repr(o.tolist()).encode())
+        elif isinstance(o, np.ndarray):
             h.update(b'nd' + str(o.shape).encode() + str(o.dtype).encode() + np.ascontiguousarray(o).tobytes())
         elif isinstance(o, (int, float, str, bool, type(None), complex, np.generic)):
             h.update(repr(o).encode())
@@ -199,7 +201,7 @@ def reads(z, est, X, kw):
         return [('transform', lambda: est.transform(X)),
                 ('inverse_transform', lambda: est.inverse_transform(est.transform(X))),
                 ('get_feature_names_out', lambda: np.array(est.get_feature_names_out(), dtype=str)),
-                ('lift_state', lambda: est.lift_state(X[:, :3]))]
+                ('lift_state', lambda: est.lift_state(np.array(X)[:, :3]))]
     if k == 'pipeline':
         return [('transform', lambda: est.transform(X)), ('predict', lambda: est.predict(X)),
                 ('predict_trajectory', lambda: est.predict_trajectory(X)), ('score', lambda: np.array([est.score(X)]))]
@@ -250,10 +252,14 @@ def is_leaf(v):
     return True
 
 
-def run_history(ctx, z, length):
+def run_history(ctx, z, length, frames=False):
     """execute a random history on one instance; compare with fresh clones wherever the machine says equal"""
     rng = ctx.rng
     D = data_sets(rng, z['kind'])
+    if z['kind'] in ('lifting', 'pipeline') and frames:
+        # named columns: the estimators capture feature names from DataFrames, one more piece of fitted state
+        import pandas
+        D = [(pandas.DataFrame(X, columns=[f'c{j}' for j in range(X.shape[1])]), kw) for X, kw in D]
     est = z['make']()
     hist = []
     fails = []
@@ -265,7 +271,7 @@ def run_history(ctx, z, length):
         if op == 'fit':
             i = rng.randrange(len(D))
             X, kw = D[i]
-            Xc = X.copy()
+            Xc = np.array(X).copy()
             before = digest(est.get_params(deep=True))
             try:
                 est.fit(X, **kw)
@@ -275,7 +281,7 @@ def run_history(ctx, z, length):
                 continue
             hist.append(f'fit({i})')
             last = i
-            if not np.array_equal(X, Xc):
+            if not np.array_equal(np.array(X), Xc):
                 fails.append(('fit modified its input array', {'estimator': z['name'], 'part': 'input'}))
             if digest(est.get_params(deep=True)) != before:
                 fails.append(('fit modified its constructor arguments (get_params(deep=True) changed during fit)',
@@ -293,16 +299,20 @@ def run_history(ctx, z, length):
         elif op == 'read' and last is not None:
             X, kw = D[last]
             before = digest(fitted_attrs(est)) + digest(est.get_params(deep=True))
-            Xc = X.copy()
+            Xc = np.array(X).copy()
+            cols0 = [str(c) for c in X.columns] if hasattr(X, 'columns') else None
             for name, th in reads(z, est, X, kw):
                 try:
                     th()
                 except Exception:
                     continue
                 hist.append(name)
+                if cols0 is not None and [str(c) for c in X.columns] != cols0:
+                    fails.append((f'{name} modified the column names of its input DataFrame', {'estimator': z['name'], 'part': 'read'}))
+                    return hist, fails      # the caller's DataFrame is corrupted: stop using it
             if digest(fitted_attrs(est)) + digest(est.get_params(deep=True)) != before:
                 fails.append(('a read-only call changed the fitted state or the parameters', {'estimator': z['name'], 'part': 'read'}))
-            if not np.array_equal(X, Xc):
+            if not np.array_equal(np.array(X), Xc):
                 fails.append(('a read-only call modified its input array', {'estimator': z['name'], 'part': 'input'}))
         elif op == 'set' and z['params']:
             k = rng.choice(sorted(z['params']))
@@ -405,14 +415,21 @@ def run(ctx):
     reps = 1 if ctx.tier == 'quick' else 6
     length = 8 if ctx.tier == 'quick' else 20
     for z in Z:
-        for r in range(reps if not z['tags'].get('iterative') else max(1, reps // 3)):
-            hist, fails = run_history(ctx, z, length if not z['tags'].get('lmi') else min(length, 6))
+        n_rep = reps if not z['tags'].get('iterative') else max(1, reps // 3)
+        if z['kind'] in ('lifting', 'pipeline'):
+            n_rep += 1          # one extra history on DataFrames (captured feature names are fitted state too)
+        for r in range(n_rep):
+            hist, fails = run_history(ctx, z, length if not z['tags'].get('lmi') else min(length, 6),
+                                      frames=(z['kind'] in ('lifting', 'pipeline') and r == n_rep - 1))
             ctx.count('class:' + z['name'])
             ctx.count('ops', len(hist))
             ctx.record_case({'estimator': z['name'], 'history': hist}, len(hist) >= 2)
             for why, tags in fails:
                 ctx.fail(f"{z['name']}: {why}", {'estimator': z['name'], 'history': hist}, tags)
-        if not z['tags'].get('lmi'):
+            z['_writes'] = z.get('_writes', False) or any(t.get('part') == 'read' for _, t in fails)
+        if not z['tags'].get('lmi') and not z.get('_writes'):
+            # (only meaningful when read-only calls do not write: concurrent writers to numpy object arrays can crash
+            # the interpreter, and the premise of the interleaving theorem is already refuted)
             why = thread_check(z, ctx.rng)
             ctx.count('thread_checks')
             if why:
